@@ -1471,7 +1471,7 @@ section Examples
 /-- the getters of the dialog / transaction layer succeed on the example request -/
 example : (getFrom realCm exMsg).isSome = true ∧ (getTo realCm exMsg).isSome = true ∧
     (getCSeq realCm exMsg).isSome = true ∧ (getDialog realCm exMsg).1.isSome = true ∧
-    (getClientTransaction realCm exMsg).1 = some (str "INVITE-z1") ∧
+    (getClientTransaction realCm exMsg).1 = some (str "INVITE z1") ∧
     (getMethod realCm exResp).map Prod.fst = some (str "INVITE") := by decide +kernel
 
 /-- `step_request_out`, `step_request`, `handleMessage_request_out`, `sendMessage_out`: a request
